@@ -72,6 +72,12 @@ def updatePad (pol : PadPolicy) (unpaddedLen : Nat) : Ext → Ext
   | padding n w => padding (pol.apply unpaddedLen (n, w)).1 (pol.apply unpaddedLen (n, w)).2
   | e => e
 
+/-- the padding extension object with some stored `(PaddingLen, WillPad)` — e.g. what an earlier
+marshal over the same object left behind. -/
+def setPad (c : Nat × Bool) : Ext → Ext
+  | padding _ _ => padding c.1 c.2
+  | e => e
+
 /-! ## Length accounting -/
 
 /-- `headerLength`. The random is *assumed* to be 32 bytes here; the bytes written are `f.random`. -/
@@ -195,6 +201,14 @@ def marshalNoECH (f : HelloFields) (pol : PadPolicy) (xs : List Ext) : MRes :=
   match readAll S st0 (xs.map (updatePad pol (unpaddedLen f xs))) with
   | .error e => .err e
   | .ok st => if st.out.length = 4 + hl then .ok st.out else .err .length
+
+/-- a sequence of marshals over one extension-list object whose padding extension carries stored state
+from step to step (`next` = however that state evolves: `Update`, user code, another connection sharing
+the spec object). -/
+def marshalSeq (pol : PadPolicy) (next : Nat × Bool → HelloFields → List Ext → Nat × Bool) :
+    Nat × Bool → List (HelloFields × List Ext) → List MRes
+  | _, [] => []
+  | c, (f, xs) :: r => marshalNoECH f pol (xs.map (setPad c)) :: marshalSeq pol next (next c f xs) r
 
 /-- the bytes an extension contributes to a ClientHello (nothing when `Read` bails out). -/
 def emit (e : Ext) : Bytes :=
